@@ -366,7 +366,9 @@ package keeper
 //@   props C24,C12
 //@   modifies all
 //@   ensures [no-coins-move] bankA2MN == old(bankA2MN) && bankSendN == old(bankSendN) && bankBurnN == old(bankBurnN) && burnN == old(burnN)
+//@   ensures [reported-set-untouched] prevSetN == old(prevSetN) && prevDelN == old(prevDelN)
 //@   loop 0 invariant bankA2MN == old(bankA2MN) && bankSendN == old(bankSendN) && bankBurnN == old(bankBurnN) && burnN == old(burnN)
+//@   loop 0 invariant prevSetN == old(prevSetN) && prevDelN == old(prevDelN)
 
 // ---- C18: a send asks the bank for exactly one transfer of exactly the requested amount --------
 //@ func (Keeper).SendCoins
@@ -576,3 +578,71 @@ package keeper
 //@   modifies all
 //@   ensures [fee-collector-part-minted] old(valHas[bytes(address)] && !firstIssueWindow(ctx) && feePartOf(ctx, rewardOf(ctx, chain, bigv[relays.i], valStake[bytes(address)])) > 0) ==> singleAmt(bankMintCoins) == old(feePartOf(ctx, rewardOf(ctx, chain, bigv[relays.i], valStake[bytes(address)])))
 //@   ensures [unknown-node-gets-nothing] old(!valHas[bytes(address)] && ((global(codec.UpgradeFeatureMap)["RSCAL"] != 0 && ctxHeight(ctx) >= global(codec.UpgradeFeatureMap)["RSCAL"]) || (global(codec.UpgradeFeatureMap)["NCUST"] != 0 && ctxHeight(ctx) >= global(codec.UpgradeFeatureMap)["NCUST"]) || global(codec.TestMode) <= 0 - 3)) ==> bankMintN == old(bankMintN)
+
+// ---- C22: what is reported to the consensus engine at the end of a block -----------------------
+//@ pure nMaxVals(c Iface) int
+//@ func (Keeper).MaxValidators
+//@   trusted parameter getter: a deterministic function of the context's state
+//@   pure_fn
+//@   ensures res == nMaxVals(ctx)
+//@ ghost prevSetN int
+//@ ghost lastPrevSetAddr Bytes
+//@ ghost lastPrevSetPower int
+//@ ghost prevDelN int
+//@ ghost lastPrevDelAddr Bytes
+//@ func (Keeper).SetPrevStateValPower
+//@   trusted call event only: records the (address, power) pair written to the reported-set index (store + codec not modelled)
+//@   modifies prevSetN, lastPrevSetAddr, lastPrevSetPower
+//@   ensures prevSetN == old(prevSetN) + 1 && lastPrevSetAddr == bytes(addr) && lastPrevSetPower == power
+//@ func (Keeper).DeletePrevStateValPower
+//@   trusted call event only: records the address removed from the reported-set index
+//@   modifies prevDelN, lastPrevDelAddr
+//@   ensures prevDelN == old(prevDelN) + 1 && lastPrevDelAddr == bytes(addr)
+//@ func (Keeper).SetPrevStateValidatorsPower
+//@   trusted KV-store effect only: no Go object visible to the caller is modified
+//@ func (Keeper).getPrevStatePowerMap
+//@   trusted reads the reported-set index into a fresh Go map (iteration + copies)
+//@   ensures result != nil && fresh(result)
+//@ func sortNoLongerStakedValidators
+//@   trusted the keys of the map as a sorted list of fresh 20-byte slices (Go map iteration + sort.SliceStable)
+//@   ensures len(result) >= 0
+
+// The candidates are read from the staked-by-power index from the HIGHEST key down; at most
+// MaxValidators of them are counted; every candidate reported has its CURRENT non-zero power and
+// that same power is what the reported-set index remembers; every former member that is not
+// among them is removed from the reported-set index and - once validator splitting is active -
+// reported with power zero.
+//@ func (Keeper).UpdateTendermintValidators
+//@   props C22
+//@   modifies all
+//@   ensures [at-most-max] prevSetN - old(prevSetN) <= max(0, nMaxVals(ctx))
+//@   ensures [members-then-leavers] 0 <= prevSetN - old(prevSetN) && prevSetN - old(prevSetN) <= len(updates) && prevDelN - old(prevDelN) == len(updates) - (prevSetN - old(prevSetN))
+//@   ensures [members-nonzero] forall i int :: 0 <= i && i < prevSetN - old(prevSetN) ==> updates[i].Power != 0
+//@   ensures [leavers-zero] ctxHeight(ctx) >= 45353 ==> (forall i int :: prevSetN - old(prevSetN) <= i && i < len(updates) ==> updates[i].Power == 0)
+//@   loop 0 invariant iterator != nil && 0 <= itPos[iterator] && itPos[iterator] <= itN[iterator]
+//@   loop 0 invariant [highest-first] itRev[iterator] && itLo[iterator] == bytes(global(types.StakedValidatorsKey))
+//@   loop 0 invariant 0 <= count && count <= max(0, nMaxVals(ctx)) && len(updates) == prevSetN - old(prevSetN) && len(updates) <= count && prevDelN == old(prevDelN)
+//@   loop 0 invariant forall i int :: 0 <= i && i < len(updates) ==> updates[i].Power != 0
+//@   loop 0 invariant [remembered-power] len(updates) > 0 ==> updates[len(updates) - 1].Power == lastPrevSetPower
+//@   loop 1 invariant prevSetN - old(prevSetN) <= max(0, nMaxVals(ctx))
+//@   loop 1 invariant 0 <= prevSetN - old(prevSetN)
+//@   loop 1 invariant prevSetN - old(prevSetN) <= len(updates)
+//@   loop 1 invariant prevDelN - old(prevDelN) == len(updates) - (prevSetN - old(prevSetN))
+//@   loop 1 invariant forall i int :: 0 <= i && i < prevSetN - old(prevSetN) ==> updates[i].Power != 0
+//@   loop 1 invariant ctxHeight(ctx) >= 45353 ==> (forall i int :: prevSetN - old(prevSetN) <= i && i < len(updates) ==> updates[i].Power == 0)
+
+//@ pure nMaxChains(c Iface) int
+//@ func (Keeper).MaxChains
+//@   trusted parameter getter: a deterministic function of the context's state
+//@   pure_fn
+//@   ensures res == nMaxChains(ctx)
+// ---- C14: who may (edit-)stake a node ----------------------------------------------------------
+// An accepted stake message for a node that already has a record was signed by that RECORD's
+// operator or (when set) its current output address - whatever the message itself declares; and
+// the signer also appears in the new state, except when the current output address hands the
+// node over to a new output address (after both non-custodial upgrades).
+//@ func (Keeper).ValidateValidatorStaking
+//@   props C14
+//@   modifies all
+//@   ensures [current-owner-signs] result == nil && old(valHas[bytes(validatorNew.Address)]) ==> unjailSigner(old(bytes(signerAddress)), old(bytes(validatorNew.Address)), old(valOutNil[bytes(validatorNew.Address)]), old(valOut[bytes(validatorNew.Address)]))
+//@   ensures [named-in-new-state-or-handover] result == nil ==> unjailSigner(old(bytes(signerAddress)), old(bytes(validatorNew.Address)), validatorNew.OutputAddress == nil, old(bytes(validatorNew.OutputAddress))) || (old(valHas[bytes(validatorNew.Address)]) && !old(valOutNil[bytes(validatorNew.Address)]) && addrEq(old(bytes(signerAddress)), old(valOut[bytes(validatorNew.Address)])) && validatorNew.OutputAddress != nil)
